@@ -296,3 +296,100 @@ Proof.
   pose proof (sr_cells _ _ _ SRf) as HC. rewrite Ec, map_ren_bytes in HC. unfold Pipe.abs in HC. symmetry in HC.
   rewrite (GeoEncProofs.abs_bytes _ _ HC). rewrite T'. reflexivity.
 Qed.
+
+(* ---- the decoder never panics on inputs below 2^62 bytes ---- *)
+From WP Require Import iovec.GeoNoPanic.
+From WP Require hcobs.GeoChunker.
+Open Scope nat_scope.
+
+Lemma gd_once_no_panic copy mi ms inp p st h g off m s :
+  GS m s h g -> InpOK h g inp p off -> dwf st -> off < length p -> (nlen p <= BIG)%N ->
+  exists r, gd_once copy mi ms inp p st h g off = Some r.
+Proof.
+  intros G IO W Hlen Hbig. destruct (GS_good _ _ _ _ G) as (I & B). unfold gd_once. unfold byte in *.
+  destruct (skipn off p) as [|b t] eqn:Ey.
+  { exfalso. apply (f_equal (@length _)) in Ey. rewrite skipn_length in Ey. cbn in Ey. lia. }
+  cbv beta iota. rewrite <- ?Ey.
+  destruct st as [|ins|b0|rem term].
+  - destruct (mi <? N.to_nat b); eauto.
+  - destruct ins.
+    + cbv beta iota. match goal with |- context [push_copy ?a ?b ?c] =>
+        destruct (push_copy_no_panic a b c I) as (h1 & g1 & ->); [unfold BIG, nlen; cbn; lia|] end.
+      destruct (RADIX <=? N.to_nat b); eauto.
+    + destruct (RADIX <=? N.to_nat b); eauto.
+  - destruct (RADIX <=? N.to_nat b); [eauto|]. destruct (ms <? N.to_nat b0 + N.to_nat b * RADIX); eauto.
+  - cbn [dwf] in W. set (k := Nat.min (length p - off) rem).
+    assert (Hk : 0 < k /\ off + k <= length p) by (unfold k; lia).
+    destruct copy.
+    + destruct (push_copy_no_panic h (firstn k (skipn off p)) g I) as (h1 & g1 & ->); [|eauto].
+      unfold nlen in *. rewrite firstn_length, skipn_length. lia.
+    + destruct (sub_ok h g inp p off k IO (proj1 Hk) (proj2 Hk)) as (Hok & _ & Hb).
+      destruct (push_no_panic h (sub inp off k) g I) as (h1 & g1 & ->); [|eauto].
+      rewrite <- (sl_len_bytes h _ Hok), Hb. unfold nlen in *. rewrite firstn_length, skipn_length. lia.
+Qed.
+
+Lemma gd_loop_no_panic copy mi ms inp p : (nlen p <= BIG)%N -> forall fuel st h g off m s,
+  GS m s h g -> InpOK h g inp p off -> dwf st -> exists r, gd_loop fuel copy mi ms inp p st h g off = Some r.
+Proof.
+  intros Hbig. induction fuel as [|fuel IH]; intros st h g off m s G IO W; cbn [gd_loop]; unfold byte in *; [eauto|].
+  destruct (skipn off p) as [|b t] eqn:Ey; [eauto|].
+  assert (Hlen : off < length p).
+  { destruct (Nat.lt_ge_cases off (length p)) as [H|H]; [exact H|]. rewrite skipn_all2 in Ey by lia. discriminate. }
+  destruct (gd_once_no_panic copy mi ms inp p st h g off m s G IO W Hlen Hbig) as ([[r1 h1] g1] & E1). rewrite E1.
+  pose proof (sim_gd_once copy mi ms inp p st h g off m s r1 h1 g1 G IO W E1) as S1.
+  destruct r1 as [[st1 c1]|]; [|eauto].
+  destruct (dec_once mi ms st (skipn off p)) as [[[st1' c1'] out1]|] eqn:D1; [|contradiction].
+  destruct S1 as (<- & <- & G1 & IO1). exact (IH st1 h1 g1 (off + c1) m (s_push s out1) G1 IO1 (dec_once_wf _ _ _ _ _ _ _ W D1)).
+Qed.
+
+Lemma gd_piece_no_panic copy mi ms inp p st h g m s :
+  GS m s h g -> InpOK h g inp p 0 -> sl_bytes h inp = p -> dwf st -> (nlen p <= BIG)%N ->
+  exists r, gd_piece copy mi ms inp st h g = Some r.
+Proof.
+  intros G IO Hp W Hbig. unfold gd_piece. rewrite Hp.
+  destruct (gd_loop_no_panic copy mi ms inp p Hbig (S (length p)) st h g 0 m s G IO W) as ([[r h1] g1] & ->).
+  destruct r; eauto.
+Qed.
+
+(* histories of decode / decode_copy / decode_read calls with less than 2^62 bytes per call: no assertion of the decoder,
+   of the iovec or of the arena fires *)
+Definition dsmall (o : gdop) : Prop :=
+  match o with
+  | GDBorrow p | GDCopy p => (nlen p <= BIG)%N
+  | GDRead got count => (nlen got <= count)%N /\ (count <= BIG)%N
+  | _ => False
+  end.
+
+Theorem gd_run_no_panic mi ms : forall ops st h g m s, Forall dsmall ops -> GS m s h g -> dwf st ->
+  exists r, gd_run mi ms st h g ops = Some r.
+Proof.
+  induction ops as [|o r IH]; intros st h g m s Hs G W; cbn [gd_run]; [eauto|].
+  inversion Hs as [|? ? Ho Hr]; subst.
+  (* one decode call on any input memory, then the rest *)
+  assert (Hgo : forall copy p h0 g0 inp (post : giov -> giov), GS m s h0 g0 -> InpOK h0 g0 inp p 0 -> sl_bytes h0 inp = p -> (nlen p <= BIG)%N ->
+    (forall m1 s1 h1 g1, GS m1 s1 h1 g1 -> GS m1 s1 h1 (post g1)) ->
+    exists st1 okp h1 g1, gd_piece copy mi ms inp st h0 g0 = Some (st1, okp, h1, g1) /\
+      (okp = true -> exists m1 s1, GS m1 s1 h1 (post g1) /\ dwf st1)).
+  { intros copy p h0 g0 inp post G0 IO0 Hb0 Hbig Hpost.
+    destruct (gd_piece_no_panic copy mi ms inp p st h0 g0 m s G0 IO0 Hb0 W Hbig) as ([[[st1 okp] h1] g1] & EP).
+    exists st1, okp, h1, g1. split; [exact EP|]. intros ->.
+    pose proof (sim_gd_piece copy mi ms inp p st h0 g0 m s st1 true h1 g1 G0 IO0 Hb0 W EP) as H.
+    destruct (decode_piece mi ms st p) as [[st2 o1]|] eqn:DP.
+    - destruct H as (_ & -> & G1). exists m, (s_push s o1). split; [now apply Hpost|].
+      rewrite decode_piece_run in DP by exact W. eapply run_wf; eauto.
+    - destruct H as (H & _). discriminate. }
+  destruct o as [p|p|got count|k|n]; cbn [dsmall] in Ho; try contradiction; cbn [gd_step].
+  - destruct (Hgo false p h g (SExt p) (fun x => x) G (InpOK_ext h g p 0) eq_refl Ho (fun _ _ _ _ X => X)) as (st1 & okp & h1 & g1 & -> & Hn).
+    destruct okp; cbn [zb N.eqb]; [|eauto]. destruct (Hn eq_refl) as (m1 & s1 & G1 & W1). exact (IH st1 h1 g1 m1 s1 Hr G1 W1).
+  - destruct (Hgo true p h g (SExt p) (fun x => x) G (InpOK_ext h g p 0) eq_refl Ho (fun _ _ _ _ X => X)) as (st1 & okp & h1 & g1 & -> & Hn).
+    destruct okp; cbn [zb N.eqb]; [|eauto]. destruct (Hn eq_refl) as (m1 & s1 & G1 & W1). exact (IH st1 h1 g1 m1 s1 Hr G1 W1).
+  - destruct Ho as (Hle & Hbig). unfold gd_read.
+    destruct (GeoChunker.as_read_n_no_panic h (gcache_ g) got count Hle Hbig) as ([[hr kr] a] & EA). rewrite EA.
+    destruct (sim_read_n m s h g got count hr kr a G EA) as (Gr & Hpos).
+    unfold gd_anchored. destruct (as_len a =? 0)%N eqn:E0.
+    + cbn [zb N.eqb]. exact (IH st hr (set_cache kr g) m s Hr Gr W).
+    + destruct (Hpos eq_refl) as (IOr & Hbr).
+      destruct (Hgo false got hr (set_cache kr g) (as_sl a) (push_anchor (as_anchor a)) Gr IOr Hbr (N.le_trans _ _ _ Hle Hbig)
+                  (fun m1 s1 h1 g1 X => GS_push_anchor m1 s1 h1 g1 (as_anchor a) X)) as (st1 & okp & h1 & g1 & -> & Hn).
+      destruct okp; cbn [zb N.eqb]; [|eauto]. destruct (Hn eq_refl) as (m1 & s1 & G1 & W1). exact (IH st1 h1 _ m1 s1 Hr G1 W1).
+Qed.
